@@ -175,7 +175,11 @@ def generate(rng, tier):
         P = gen_parser(rng, levels)
         for _ in range(12):
             env, entry = gen_input(rng, P)
-            cases.append({"parser": P, "env": env, "entry": entry})
+            case = {"parser": P, "env": env, "entry": entry}
+            if env is not None:
+                # how environment parsing is switched on (or off, with the variables present all the same)
+                case["envmode"] = rng.choice(["ctor", "ctor", "setter", "setter", "arg", "off_setter", "off"])
+            cases.append(case)
     return cases
 
 
@@ -238,6 +242,14 @@ def t_ns(d):
     return g_list([g_pair(g_str(k), t_node(v)) for k, v in d.items()], "(str * node)%type")
 
 
+ENV_ON_MODES = ("ctor", "setter", "arg")
+
+
+def env_on(case):
+    """is the environment to be read?  (the variables are in os.environ whenever case["env"] is not None)"""
+    return case["env"] is not None and case.get("envmode", "ctor") in ENV_ON_MODES
+
+
 def term(case, obs):
     e = case["entry"]
     if e["kind"] == "args":
@@ -246,7 +258,7 @@ def term(case, obs):
         entry = "EObject %s" % t_cobj(e["cfg"])
     else:
         entry = "EString %s" % t_cobj(e["cfg"])
-    env = "None" if case["env"] is None else "(Some %s)" % t_cobj(case["env"])
+    env = "(Some %s)" % t_cobj(case["env"]) if env_on(case) else "None"
     o = "(Some %s)" % t_ns(obs["ok"]) if "ok" in obs else "None"
     return "{| c_parser := %s; c_input := {| i_env := %s; i_entry := %s |}; c_obs := %s |}" % (
         t_parser(case["parser"]), env, entry, o)
@@ -268,7 +280,7 @@ def _argv_mentions(A):
 
 def nontrivial_key(case, obs):
     P, e = case["parser"], case["entry"]
-    m = (case["env"] is not None and _mentions(case["env"], P))
+    m = (env_on(case) and _mentions(case["env"], P))
     m = m or (e["kind"] == "args" and _argv_mentions(e["argv"])) or (e["kind"] != "args" and _mentions(e["cfg"], P))
     if not m:
         return None
@@ -280,15 +292,20 @@ def _depth(P):
 
 
 def category(case, obs):
-    return "%s/%s/levels=%d/%s" % (case["entry"]["kind"], "env" if case["env"] is not None else "noenv",
+    return "%s/%s/levels=%d/%s" % (case["entry"]["kind"], "env:" + case.get("envmode", "ctor") if case["env"] is not None else "noenv",
                                    _depth(case["parser"]), "ok" if "ok" in obs else obs["fail"])
 
 
 def describe(case, obs):
     e = case["entry"]
-    d = {"parser_tree": case["parser"], "default_env": case["env"] is not None}
+    d = {"parser_tree": case["parser"], "environment_read": env_on(case)}
     if case["env"] is not None:
         d["environment"] = _render_env(case["env"])
+        d["environment_switch"] = {"ctor": "root built with default_env=True",
+                                   "setter": "tree built, then root.default_env = True",
+                                   "arg": "default_env=False, parse_*(..., env=True)",
+                                   "off_setter": "tree built with default_env=True, then root.default_env = False",
+                                   "off": "default_env=False (variables present, must not be read)"}[case.get("envmode", "ctor")]
     if e["kind"] == "args":
         d["call"] = "parse_args(%r)" % (_render_argv(e["argv"]),)
     elif e["kind"] == "object":
@@ -362,6 +379,8 @@ def shrink(case):
     e = case["entry"]
     if case["env"] is not None:
         yield dict(case, env=None)
+        if case.get("envmode", "ctor") != "ctor":
+            yield dict(case, envmode="ctor")
         for w in _drop_each(case["env"]):
             yield dict(case, env=w)
     if e["kind"] == "args":
